@@ -2,6 +2,7 @@ package config
 
 import (
 	"fmt"
+	"net"
 	"os"
 	"runtime"
 	"sort"
@@ -91,10 +92,34 @@ func (c *SyncConfig) fix() error {
 			c.Cluster = nil
 		}
 	}
+	peerConfigured := c.Server.Listen != "" || c.Server.ListenPeer != ""
 	if err := c.Server.fix(); err != nil {
 		return err
 	}
+	if c.Cluster != nil {
+		if err := c.Server.checkPeerIdentity(peerConfigured); err != nil {
+			return err
+		}
+	}
 
+	return nil
+}
+
+// checkPeerIdentity : in cluster mode listenPeer is the identity of this instance
+// in the leader election and the address its followers connect to. A built-in
+// default or an unspecified address is shared by every instance, all of them
+// would contend under one identity and each would be told it is the leader.
+func (sc *ServerConfig) checkPeerIdentity(configured bool) error {
+	if !configured {
+		return newConfigError("cluster mode : server.listenPeer (or server.listen) must be set, it identifies the instance")
+	}
+	host, _, err := net.SplitHostPort(sc.ListenPeer)
+	if err != nil {
+		return newConfigError("cluster mode : invalid server.listenPeer(%s) : %v", sc.ListenPeer, err)
+	}
+	if ip := net.ParseIP(host); host == "" || (ip != nil && ip.IsUnspecified()) {
+		return newConfigError("cluster mode : server.listenPeer(%s) must be an address the peers can connect to, it identifies the instance", sc.ListenPeer)
+	}
 	return nil
 }
 
